@@ -590,6 +590,33 @@ pub fn contract_apply_tagenv<C: Ctx>(cx: &mut C, max_len: usize) {
     }
 }
 pub fn contract_apply_tagenv_singleton<C: Ctx>(cx: &mut C) { contract_apply_tagenv(cx, 1) }
+
+/// Kani-sized variant: the STRUCTURE is concrete (one SEQUENCE / SET / CHOICE with exactly one component — singleton
+/// lists, so the slice-stride defect of Kani 0.68 cannot bite), only the scalars are symbolic: module default and the
+/// keyword state of the two tags.
+pub fn contract_apply_tagenv_concrete<C: Ctx>(cx: &mut C, kind: usize) {
+    use crate::intermediate::types::*;
+    let env = any_tagenv(cx);
+    let (top_tag, top_k) = tag_with(cx);
+    let (t, k) = tag_with(cx);
+    let ty = match kind {
+        0 | 1 => {
+            let s = SequenceOrSet { components_of: Vec::new(), extensible: None, constraints: Vec::new(), members: vec![SequenceOrSetMember { name: String::new(), tag: t, ty: ASN1Type::Null, optionality: Optionality::Required, is_recursive: false, constraints: Vec::new() }] };
+            if kind == 0 { ASN1Type::Sequence(s) } else { ASN1Type::Set(s) }
+        }
+        _ => ASN1Type::Choice(Choice { extensible: None, constraints: Vec::new(), options: vec![ChoiceOption { name: String::new(), tag: t, ty: ASN1Type::Null, constraints: Vec::new(), is_recursive: false }] }),
+    };
+    let mut tld = ToplevelDefinition::Type(ToplevelTypeDefinition { comments: String::new(), tag: top_tag, name: String::new(), ty, parameterization: None, module_header: None });
+    tld.apply_tagging_environment(&env);
+    if let ToplevelDefinition::Type(tdef) = &tld {
+        vob!(cx, "C03.apply_tagenv_k.type_assignment_tag", tag_ok(&tdef.tag, top_k, env));
+        match &tdef.ty {
+            ASN1Type::Sequence(s) | ASN1Type::Set(s) => { vob!(cx, "C03.apply_tagenv_k.component_tag", s.members.len() == 1 && tag_ok(&s.members[0].tag, k, env)); }
+            ASN1Type::Choice(c) => { vob!(cx, "C03.apply_tagenv_k.alternative_tag", c.options.len() == 1 && tag_ok(&c.options[0].tag, k, env)); }
+            _ => { vob!(cx, "C03.apply_tagenv_k.kind_kept", false); }
+        }
+    }
+}
 pub fn contract_apply_tagenv_lists<C: Ctx>(cx: &mut C) { contract_apply_tagenv(cx, 3) }
 
 // ------------------------------------------------------------------------------------------------
@@ -634,6 +661,9 @@ pub fn contract_named_bits<C: Ctx>(cx: &mut C) {
     }
 }
 
+// (Kani harnesses k_c03_apply_tagenv_{sequence1,set1,choice1} over contract_apply_tagenv_concrete — concrete structure,
+//  symbolic scalars only — did not finish in 10 min either after apply_tagging_environment became recursive: CBMC keeps
+//  unwinding the recursion over the ASN1Type union.  They are not registered.)
 // (A Kani harness over contract_apply_tagenv_singleton did not finish in 15 min — symbolic choice between the
 //  ASN1Type variants makes CBMC stall in the nested-union layout, DESIGN §1.2 — so this contract runs as a
 //  native bounded stand-in only.)
